@@ -646,8 +646,18 @@ Record link_property (lv : level) (r : role) (s : suite) (holds : list key) (h :
                 o_hs = true /\
                 (r = RAccept -> exists c k, leaf h = Some c /\ key_of_cn s (c_cn c) = Some k /\
                                             declared s c id = Some k);
-  lp_nocrash : o_crash = false
+  lp_nocrash : o_crash = false;
+  lp_valid : o_hs = true -> exists c, leaf h = Some c /\ (c_nb c <= 0 <= c_na c)%Z
 }.
+
+Lemma valid_now_b_spec h :
+  valid_now_b h = true <-> exists c, leaf h = Some c /\ (c_nb c <= 0 <= c_na c)%Z.
+Proof.
+  unfold valid_now_b. split.
+  - destruct (leaf h) as [c|]; try discriminate. intros H. apply andb_true_iff in H as [H1 H2].
+    apply Z.leb_le in H1. apply Z.leb_le in H2. exists c. split; [reflexivity|lia].
+  - intros (c & -> & H1 & H2). apply andb_true_iff. split; apply Z.leb_le; assumption.
+Qed.
 
 Lemma holds_b_in holds k : holds_b holds k = true <-> In k holds.
 Proof.
@@ -699,7 +709,8 @@ Proof.
         destruct (leaf h) as [c|]; try discriminate.
         apply identity_matches in Hz as (k & Hk & Hdc). exists c, k. auto.
     + now apply negb_true_iff.
-  - intros [H1 H2 H3 H4 H5 H6].
+    + intros ->. simpl in *. now apply valid_now_b_spec.
+  - intros [H1 H2 H3 H4 H5 H6 H7].
     repeat (apply app_nil_intro); apply clause_if_nil.
     + destruct o_hs; [|reflexivity]. simpl. destruct (H1 eq_refl) as (k & -> & Hin). now apply holds_b_in.
     + destruct o_hs; [|reflexivity]. simpl. apply fresh_proof_b_spec. now apply H2.
@@ -710,6 +721,7 @@ Proof.
       destruct (H5 E) as [-> Hr]. simpl. destruct r as [e|]; [reflexivity|].
       destruct (Hr eq_refl) as (c & k & -> & Hk & Hd). unfold router_accepts. rewrite Hd, Hk. apply Nat.eqb_refl.
     + now apply negb_true_iff.
+    + destruct o_hs; [|reflexivity]. simpl. apply valid_now_b_spec. now apply H7.
 Qed.
 
 (* ------------------------------------------------------------------------- *)
@@ -766,11 +778,13 @@ Proof.
     as (c & k & Hl & Hk & Hin).
   pose proof Et as Et'. apply tls_handshake_accept in Et' as (c' & hk & -> & Htk & Hv).
   simpl in Hl. injection Hl as <-.
-  destruct (proof_of_possession _ _ _ _ _ _ Hv) as (c0 & k0 & tk & Heq & Hk0 & Hs & _ & _).
+  destruct (proof_of_possession _ _ _ _ _ _ Hv) as (c0 & k0 & tk & Heq & Hk0 & Hs & Hval & _).
   injection Heq as <-. rewrite Hk in Hk0. injection Hk0 as <-.
   assert (Hpk : proven_key s (Hello [RawOne c'] hk) = Some k) by (unfold proven_key; simpl; exact Hk).
   assert (Hfresh : exists c k tk, leaf (Hello [RawOne c'] hk) = Some c /\ key_of_cn s (c_cn c) = Some k /\
                                   c_sig c = Some (SigBy k 0 (c_cn c) tk)) by (exists c', k, tk; auto).
+  assert (Hvalid : exists c, leaf (Hello [RawOne c'] hk) = Some c /\ (c_nb c <= 0 <= c_na c)%Z)
+    by (exists c'; split; [reflexivity|assumption]).
   destruct r as [e|].
   - (* dial *)
     apply dial_reaches_expected_fixed in Hv as (c1 & tk1 & Heq & Hke & _); [|reflexivity].
@@ -826,12 +840,14 @@ Proof.
   destruct (tls_handshake fx s 0 0 (them_of r) h) eqn:Et; simpl.
   2:{ constructor; simpl; try discriminate; try (intros k []); try reflexivity. intros H; contradiction. }
   pose proof Et as Et'. apply tls_handshake_accept in Et' as (c' & hk & -> & Htk & Hv).
-  destruct (proof_of_possession _ _ _ _ _ _ Hv) as (c0 & k & tk & Heq & Hk & Hs & _ & _).
+  destruct (proof_of_possession _ _ _ _ _ _ Hv) as (c0 & k & tk & Heq & Hk & Hs & Hval & _).
   injection Heq as <-.
   assert (Hin : In k holds) by (eapply (Hown c' k 0 (c_cn c') tk); [simpl; auto|exact Hs]).
   assert (Hpk : proven_key s (Hello [RawOne c'] hk) = Some k) by (unfold proven_key; simpl; exact Hk).
   assert (Hfresh : exists c k tk, leaf (Hello [RawOne c'] hk) = Some c /\ key_of_cn s (c_cn c) = Some k /\
                                   c_sig c = Some (SigBy k 0 (c_cn c) tk)) by (exists c', k, tk; auto).
+  assert (Hvalid : exists c, leaf (Hello [RawOne c'] hk) = Some c /\ (c_nb c <= 0 <= c_na c)%Z)
+    by (exists c'; split; [reflexivity|assumption]).
   destruct r as [e|].
   - apply dial_reaches_expected_fixed in Hv as (c1 & tk1 & Heq & Hke & _); [|reflexivity].
     injection Heq as <-. rewrite Hk in Hke. injection Hke as <-.
